@@ -275,14 +275,12 @@ class Check:
         replay_paths = []
         if self.violations:
             os.makedirs(os.path.join(REPLAYS, self.pid), exist_ok=True)
-            seen = set()
-            for i, v in enumerate(self.violations):
+            per = {}
+            for v in self.violations:
                 key = (v["clause"], v["site"])
-                if key in seen and i > 40:
+                per[key] = per.get(key, 0) + 1
+                if per[key] > 3 or len(replay_paths) >= 30:
                     continue
-                seen.add(key)
-                if len(replay_paths) >= 25:
-                    break
                 path = os.path.join(REPLAYS, self.pid, f"{self.tier}_{len(replay_paths):03d}.json")
                 with open(path, "w") as fh:
                     json.dump({"property": self.pid, "tier": self.tier, "seed": seed(), **v}, fh, indent=1, default=_js)
@@ -290,6 +288,8 @@ class Check:
                 print(f"VIOLATION property={self.pid} replay={path}")
                 print(f"  clause: {v['clause']}  site: {v['site']}")
                 print("  detail: " + json.dumps(v["detail"], default=_js)[:600])
+            for key, n in per.items():
+                print(f"  [{n} violation(s)] {key[1]}: {key[0]}")
         nd = len(self.nontrivial) + self.nontrivial_count
         cov = {
             "states": self.states,
